@@ -17,6 +17,8 @@
 //                   octet and every key octet influences it;
 //   * verify_truncated_left(tag) = tag is a non-empty prefix (at most
 //                   output_size octets) of that MAC, as digest::Mac does.
+//                   (The C10 family can force the verdict - FORCE_VERDICT -
+//                   and reads back the submitted tag; never used for C11.)
 // HMAC-SHA1/256 themselves are the trusted primitive.  What is decided here
 // is the octet stream (compared octet by octet with the harness's own RFC
 // 8945 stream), the RDATA, and the verdict logic around the MAC.
@@ -44,6 +46,13 @@ pub(crate) static mut REC: [u8; REC_CAP] = [0; REC_CAP];
 pub(crate) static mut REC_LEN: usize = 0;
 pub(crate) static mut REC_MADE: usize = 0;
 pub(crate) static mut REC_OVERFLOW: bool = false;
+/// 0: verify_truncated_left compares the tag with the model MAC; 1 / 2: the
+/// verdict is forced to "match" / "mismatch" (used by the C10 family to keep
+/// control flow concrete; the tag that was submitted is recorded either way).
+pub(crate) static mut FORCE_VERDICT: u8 = 0;
+pub(crate) const TAG_CAP: usize = 34;
+pub(crate) static mut LAST_TAG: [u8; TAG_CAP] = [0; TAG_CAP];
+pub(crate) static mut LAST_TAG_LEN: usize = usize::MAX;
 
 /// `OUT` = output size of the modelled algorithm (a type-level constant, so
 /// that allocation sizes stay concrete for CBMC).
@@ -105,8 +114,23 @@ impl<const OUT: usize> Authenticator for RecordingMac<OUT> {
     fn verify_truncated_left(self: Box<Self>, tag: &[u8]) -> Result<(), MacError> {
         // digest::Mac::verify_truncated_left: empty or over-long tags fail
         let n = tag.len();
+        unsafe {
+            LAST_TAG_LEN = n;
+            let mut j = 0;
+            while j < n && j < TAG_CAP {
+                LAST_TAG[j] = tag[j];
+                j += 1;
+            }
+        }
         if n == 0 || n > OUT {
             return Err(MacError);
+        }
+        unsafe {
+            if FORCE_VERDICT == 1 {
+                return Ok(());
+            } else if FORCE_VERDICT == 2 {
+                return Err(MacError);
+            }
         }
         let m = unsafe { model_mac(&self.key, &*core::ptr::addr_of!(REC), REC_LEN, OUT) };
         let mut ok = true;
@@ -137,6 +161,51 @@ pub(crate) fn recording_authenticator(alg: &Algorithm, key: &[u8]) -> Box<dyn Au
         Algorithm::HmacSha1 => Box::new(RecordingMac::<20> { key: k }),
         Algorithm::HmacSha256 => Box::new(RecordingMac::<32> { key: k }),
     }
+}
+
+// Bridge for the C10 family (a child of src/server/mod.rs, which cannot name
+// items of this private module): its `rec_fetch` / `rec_reset` are replaced
+// by these through #[kani::stub].
+pub(crate) fn rec_fetch_impl(out: &mut [u8; REC_CAP]) -> (usize, usize, bool) {
+    let mut c = 0;
+    while c < 4 {
+        let mut i = 0;
+        while i < 32 {
+            unsafe {
+                out[c * 32 + i] = REC[c * 32 + i];
+            }
+            i += 1;
+        }
+        c += 1;
+    }
+    unsafe { (REC_LEN, REC_MADE, REC_OVERFLOW) }
+}
+
+pub(crate) fn rec_reset_impl() {
+    unsafe {
+        REC_LEN = 0;
+        REC_MADE = 0;
+        REC_OVERFLOW = false;
+        LAST_TAG_LEN = usize::MAX;
+    }
+}
+
+pub(crate) fn rec_force_impl(v: u8) {
+    unsafe {
+        FORCE_VERDICT = v;
+    }
+}
+
+/// The tag most recently submitted to verify_truncated_left (usize::MAX: none).
+pub(crate) fn rec_tag_impl(out: &mut [u8; TAG_CAP]) -> usize {
+    let mut i = 0;
+    while i < TAG_CAP {
+        unsafe {
+            out[i] = LAST_TAG[i];
+        }
+        i += 1;
+    }
+    unsafe { LAST_TAG_LEN }
 }
 
 // --------------------------------------------------------------------------
@@ -213,8 +282,46 @@ pub(crate) const KEY_NAME_WIRE: [u8; 3] = [1, b'k', 0];
 pub(crate) const SHA1_WIRE: [u8; 11] = [9, b'h', b'm', b'a', b'c', b'-', b's', b'h', b'a', b'1', 0];
 pub(crate) const SHA256_WIRE: [u8; 13] = [11, b'h', b'm', b'a', b'c', b'-', b's', b'h', b'a', b'2', b'5', b'6', 0];
 
+// In-memory representation of `Name` (repr(C): n_labels, label offsets, wire
+// form; `LowercaseName` is repr(transparent) over it).  The harnesses hand
+// quandary names that live in these statics instead of on the heap, because
+// CBMC loses constants that travel through heap objects and every loop over a
+// heap name is then unwound to the bound (measured: Name == Name on two heap
+// names did not finish symbolic execution in 15 min).  Harness
+// c11_name_views_wellformed checks the views against the real constructor.
+// A Box made from such a view must never be dropped (mem::forget).
+pub(crate) static KEY_NAME_REPR: [u8; 6] = [2, 0, 2, 1, b'k', 0];
+pub(crate) static SHA1_REPR: [u8; 14] = [2, 0, 10, 9, b'h', b'm', b'a', b'c', b'-', b's', b'h', b'a', b'1', 0];
+pub(crate) static SHA256_REPR: [u8; 16] = [2, 0, 12, 11, b'h', b'm', b'a', b'c', b'-', b's', b'h', b'a', b'2', b'5', b'6', 0];
+
+pub(crate) fn boxed_view(repr: &'static [u8]) -> Box<LowercaseName> {
+    let p = core::ptr::slice_from_raw_parts(repr.as_ptr(), repr.len() - 1) as *mut LowercaseName;
+    unsafe { Box::from_raw(p) }
+}
+
 pub(crate) fn key_name() -> Box<LowercaseName> {
-    Name::try_from_uncompressed_all(&KEY_NAME_WIRE).unwrap().into()
+    boxed_view(&KEY_NAME_REPR)
+}
+
+/// Stub S5a: replacement for `Algorithm::name` in the heavy harnesses.  The
+/// real function returns lazy_static heap names (parsed from text on first
+/// use); c11_name_views_wellformed proves, without this stub, that those
+/// names equal the static representations returned here (label count, label
+/// offsets, wire octets), so the replacement is behaviour preserving for all
+/// code that reads names through the `Name` API.
+pub(crate) fn alg_name_static(alg: &Algorithm) -> &'static LowercaseName {
+    let repr: &'static [u8] = match alg {
+        Algorithm::HmacSha1 => &SHA1_REPR,
+        Algorithm::HmacSha256 => &SHA256_REPR,
+    };
+    unsafe { &*(core::ptr::slice_from_raw_parts(repr.as_ptr(), repr.len() - 1) as *const LowercaseName) }
+}
+
+pub(crate) fn alg_name_view(alg: Algorithm) -> Box<LowercaseName> {
+    match alg {
+        Algorithm::HmacSha1 => boxed_view(&SHA1_REPR),
+        Algorithm::HmacSha256 => boxed_view(&SHA256_REPR),
+    }
 }
 
 fn reset_recording() {
@@ -222,6 +329,19 @@ fn reset_recording() {
         REC_LEN = 0;
         REC_MADE = 0;
         REC_OVERFLOW = false;
+        FORCE_VERDICT = 0;
+    }
+}
+
+fn same_chunk(e: &Stream, from: usize) {
+    let mut i = from;
+    while i < from + 32 {
+        if i < e.n {
+            unsafe {
+                assert!(REC[i] == e.s[i], "[C11] MAC input equals the RFC 8945 4.3 digest stream octet for octet");
+            }
+        }
+        i += 1;
     }
 }
 
@@ -230,12 +350,11 @@ fn same_stream(e: &Stream) {
     unsafe {
         assert!(!REC_OVERFLOW, "[C11] recording overflow (harness capacity)");
         assert!(REC_LEN == e.n, "[C11] MAC input has the length of the RFC 8945 4.3 digest stream");
-        let mut i = 0;
-        while i < e.n {
-            assert!(REC[i] == e.s[i], "[C11] MAC input equals the RFC 8945 4.3 digest stream octet for octet");
-            i += 1;
-        }
     }
+    same_chunk(e, 0);
+    same_chunk(e, 32);
+    same_chunk(e, 64);
+    same_chunk(e, 96);
 }
 
 /// Tamper detection as coverage: every octet of the message other than the
@@ -254,7 +373,6 @@ fn message_covered(msg: &[u8], off: usize, original_id: u16) {
             assert!(REC[off + k] == msg[k], "[C11] every covered message octet is fed to the MAC unchanged");
         }
     }
-    kani::cover!(k == msg.len() - 1, "last message octet mapped");
 }
 
 #[derive(Clone, Copy, PartialEq, Eq)]
@@ -376,14 +494,470 @@ fn sign_case(mode: Mode, alg: Algorithm, msg: &[u8], prior: &[u8], error: u16) {
     core::mem::forget(prepared);
 }
 
-// @harness props=C11 tier=quick mem=4 t=900 stubs="S5"
-//   fn="PreparedTsigRr::sign_request,add_modified_message,add_tsig_variables,add_tsig_timers,PreparedTsigRr::serialize_rdata,PreparedTsigRr::other,Rdata::new_tsig,Rdata::validate_as_tsig"
+macro_rules! sign_harness {
+    ($name:ident, $mode:expr, $alg:expr, $n:literal, $r:literal, $err:literal) => {
+        #[kani::proof]
+        #[kani::unwind(34)]
+        #[kani::stub(Algorithm::make_authenticator, recording_authenticator)]
+        #[kani::stub(Algorithm::name, alg_name_static)]
+        fn $name() {
+            let msg: [u8; $n] = kani::any();
+            let prior: [u8; $r] = kani::any();
+            sign_case($mode, $alg, &msg, &prior, $err);
+        }
+    };
+}
+
+// @harness name=c11_sign_request_sha256_b5 props=C11 tier=quick mem=6 t=900 stubs="S5,S5a" kani="--no-assertion-reach-checks"
+//   fn="PreparedTsigRr::sign_request,add_modified_message,add_tsig_variables,add_tsig_timers,PreparedTsigRr::serialize_rdata,PreparedTsigRr::other,Rdata::new_tsig,Rdata::validate_as_tsig,Algorithm::name,Algorithm::output_size"
 //   bound="message = 12 symbolic header octets (ARCOUNT >= 1) + 5 symbolic body octets; hmac-sha256; key name 'k.'; 2-octet symbolic key; symbolic original ID, time signed (48 bits), fudge, server time; error NOERROR; unwind 34"
 //   sym="msg:[u8;17], key:[u8;2], time:[u8;6], server_time:[u8;6], fudge:u16, original_id:u16"
+sign_harness!(c11_sign_request_sha256_b5, Mode::Request, Algorithm::HmacSha256, 17, 0, 0);
+
+// @harness name=c11_sign_request_sha1_b0_badtime props=C11 tier=quick mem=6 t=900 stubs="S5,S5a" kani="--no-assertion-reach-checks"
+//   fn="PreparedTsigRr::sign_request,add_modified_message,add_tsig_variables,PreparedTsigRr::other,Rdata::new_tsig"
+//   bound="message = 12 symbolic header octets only (ARCOUNT >= 1); hmac-sha1; error BADTIME (other data = 6 symbolic server-time octets); symbolic key, original ID, time, fudge; unwind 34"
+//   sym="msg:[u8;12], key:[u8;2], time:[u8;6], server_time:[u8;6], fudge:u16, original_id:u16"
+sign_harness!(c11_sign_request_sha1_b0_badtime, Mode::Request, Algorithm::HmacSha1, 12, 0, 18);
+
+// @harness name=c11_sign_response_sha256_b5_r32 props=C11 tier=quick mem=6 t=900 stubs="S5,S5a" kani="--no-assertion-reach-checks"
+//   fn="PreparedTsigRr::sign_response,add_modified_message,add_tsig_variables,Rdata::new_tsig"
+//   bound="message 12+5 symbolic octets; request MAC of 32 symbolic octets; hmac-sha256; error NOERROR; symbolic key, original ID, time, fudge; unwind 34"
+//   sym="msg:[u8;17], request_mac:[u8;32], key:[u8;2], time:[u8;6], fudge:u16, original_id:u16"
+sign_harness!(c11_sign_response_sha256_b5_r32, Mode::Response, Algorithm::HmacSha256, 17, 32, 0);
+
+// @harness name=c11_sign_response_sha1_b9_r20_badtime props=C11 tier=quick mem=6 t=900 stubs="S5,S5a" kani="--no-assertion-reach-checks"
+//   fn="PreparedTsigRr::sign_response,add_modified_message,add_tsig_variables,PreparedTsigRr::other,Rdata::new_tsig"
+//   bound="message 12+9 symbolic octets; request MAC of 20 symbolic octets; hmac-sha1; error BADTIME with 6 symbolic server-time octets; unwind 34"
+//   sym="msg:[u8;21], request_mac:[u8;20], key:[u8;2], time:[u8;6], server_time:[u8;6], fudge:u16, original_id:u16"
+sign_harness!(c11_sign_response_sha1_b9_r20_badtime, Mode::Response, Algorithm::HmacSha1, 21, 20, 18);
+
+// @harness name=c11_sign_response_sha256_b0_r0 props=C11 tier=thorough mem=6 t=900 stubs="S5,S5a" kani="--no-assertion-reach-checks"
+//   fn="PreparedTsigRr::sign_response" bound="message 12 symbolic octets; empty request MAC (length prefix 0 only); hmac-sha256; error BADKEY(17) (no other data); unwind 34"
+//   sym="msg:[u8;12], key:[u8;2], time:[u8;6], fudge:u16, original_id:u16"
+sign_harness!(c11_sign_response_sha256_b0_r0, Mode::Response, Algorithm::HmacSha256, 12, 0, 17);
+
+// @harness name=c11_sign_subsequent_sha256_b5_r32 props=C11 tier=quick mem=6 t=900 stubs="S5,S5a" kani="--no-assertion-reach-checks"
+//   fn="PreparedTsigRr::sign_subsequent,add_modified_message,add_tsig_timers,Rdata::new_tsig"
+//   bound="message 12+5 symbolic octets; prior MAC of 32 symbolic octets; hmac-sha256; error NOERROR; digest = prior MAC, message, timers only; unwind 34"
+//   sym="msg:[u8;17], prior_mac:[u8;32], key:[u8;2], time:[u8;6], fudge:u16, original_id:u16"
+sign_harness!(c11_sign_subsequent_sha256_b5_r32, Mode::Subsequent, Algorithm::HmacSha256, 17, 32, 0);
+
+// @harness name=c11_sign_subsequent_sha1_b9_r20 props=C11 tier=thorough mem=6 t=900 stubs="S5,S5a" kani="--no-assertion-reach-checks"
+//   fn="PreparedTsigRr::sign_subsequent,add_modified_message,add_tsig_timers"
+//   bound="message 12+9 symbolic octets; prior MAC of 20 symbolic octets; hmac-sha1; error BADTIME (other data in the RDATA but not in the digest); unwind 34"
+//   sym="msg:[u8;21], prior_mac:[u8;20], key:[u8;2], time:[u8;6], server_time:[u8;6], fudge:u16, original_id:u16"
+sign_harness!(c11_sign_subsequent_sha1_b9_r20, Mode::Subsequent, Algorithm::HmacSha1, 21, 20, 18);
+
+// --------------------------------------------------------------------------
+// verification
+// --------------------------------------------------------------------------
+
+fn u48(t: &[u8; 6]) -> u64 {
+    ((t[0] as u64) << 40) | ((t[1] as u64) << 32) | ((t[2] as u64) << 24) | ((t[3] as u64) << 16) | ((t[4] as u64) << 8) | t[5] as u64
+}
+
+/// RFC 8945 5.2.3: |now - time signed| <= fudge
+fn ref_time_ok(time: &[u8; 6], fudge: u16, now: &[u8; 6]) -> bool {
+    let a = u48(time);
+    let b = u48(now);
+    let d = if a > b { a - b } else { b - a };
+    d <= fudge as u64
+}
+
+/// RFC 8945 5.2.2.1: a MAC is acceptable when it is no longer than the
+/// algorithm's output and at least max(10, output/2) octets long.
+fn ref_size_ok(out: usize, mac_len: usize) -> bool {
+    let half = out / 2 + out % 2;
+    let min = if half > 10 { half } else { 10 };
+    mac_len <= out && mac_len >= min
+}
+
+fn upper(b: u8) -> u8 {
+    if b >= b'a' && b <= b'z' {
+        b - 32
+    } else {
+        b
+    }
+}
+
+/// TSIG RDATA (RFC 8945 4.2) of exactly N octets, built field by field.
+fn rdata_of<const N: usize>(aw: &[u8], upcase: bool, time: &[u8; 6], fudge: u16, mac: &[u8], oid: u16, error: u16, other: &[u8]) -> [u8; N] {
+    let mut rd = [0u8; N];
+    let mut c = 0;
+    let mut i = 0;
+    while i < aw.len() {
+        rd[c] = if upcase { upper(aw[i]) } else { aw[i] };
+        c += 1;
+        i += 1;
+    }
+    let mut i = 0;
+    while i < 6 {
+        rd[c] = time[i];
+        c += 1;
+        i += 1;
+    }
+    rd[c] = (fudge >> 8) as u8;
+    rd[c + 1] = fudge as u8;
+    rd[c + 2] = (mac.len() >> 8) as u8;
+    rd[c + 3] = mac.len() as u8;
+    c += 4;
+    let mut i = 0;
+    while i < mac.len() {
+        rd[c] = mac[i];
+        c += 1;
+        i += 1;
+    }
+    rd[c] = (oid >> 8) as u8;
+    rd[c + 1] = oid as u8;
+    rd[c + 2] = (error >> 8) as u8;
+    rd[c + 3] = error as u8;
+    rd[c + 4] = (other.len() >> 8) as u8;
+    rd[c + 5] = other.len() as u8;
+    c += 6;
+    let mut i = 0;
+    while i < other.len() {
+        rd[c] = other[i];
+        c += 1;
+        i += 1;
+    }
+    assert!(c == N, "harness: RDATA length constant is wrong");
+    rd
+}
+
+/// One verification call.  M = message length, L = MAC length, R = length of
+/// the request/prior MAC, O = other-data length, N = RDATA length.  `upcase`:
+/// the algorithm name inside the RDATA is in upper case (the digest uses the
+/// canonical, lower-case form).
+fn verify_case<const M: usize, const L: usize, const R: usize, const O: usize, const N: usize>(mode: Mode, alg: Algorithm, upcase: bool) {
+    let msg: [u8; M] = kani::any();
+    kani::assume(be16(&msg, 10) >= 1);
+    let key: [u8; 2] = kani::any();
+    let time: [u8; 6] = kani::any();
+    let now: [u8; 6] = kani::any();
+    let fudge: u16 = kani::any();
+    let oid: u16 = kani::any();
+    let error: u16 = kani::any();
+    let mac: [u8; L] = kani::any();
+    let other: [u8; O] = kani::any();
+    let prior: [u8; R] = kani::any();
+    let aw = alg_wire(alg);
+    let rd: [u8; N] = rdata_of::<N>(aw, upcase, &time, fudge, &mac, oid, error, &other);
+    // what ReadTsigRr::try_from produces for this RR (decided separately by
+    // c11_try_from_read_rr): lower-cased owner and algorithm name, MAC size
+    let tsig = ReadTsigRr {
+        key_name: key_name(),
+        algorithm: alg_name_view(alg),
+        mac_size: L as u16,
+        rdata: Cow::Borrowed((&rd[..]).try_into().unwrap()),
+    };
+    // accessors against the fields put into the RDATA
+    assert!(tsig.fudge() == fudge, "[C11] ReadTsigRr::fudge");
+    assert!(tsig.original_id() == oid, "[C11] ReadTsigRr::original_id");
+    assert!(u16::from(tsig.error()) == error, "[C11] ReadTsigRr::error");
+    assert!(tsig.mac().len() == L && tsig.other().len() == O, "[C11] ReadTsigRr::mac / other lengths");
+    assert!(tsig.time_signed().as_array()[5] == time[5], "[C11] ReadTsigRr::time_signed");
+
+    reset_recording();
+    let res = match mode {
+        Mode::Request => tsig.verify_request(&msg, alg, &key, TimeSigned::from(now)),
+        Mode::Response => tsig.verify_response(&msg, &prior, alg, &key, TimeSigned::from(now)),
+        Mode::Subsequent => tsig.verify_subsequent(&msg, &prior, alg, &key, TimeSigned::from(now)),
+    };
+
+    // ---- oracle
+    let out = alg_out(alg);
+    let mut e = Stream::new();
+    let mut off = 0;
+    if mode != Mode::Request {
+        e.prior_mac(&prior);
+        off = 2 + R;
+    }
+    e.message(&msg, oid);
+    if mode == Mode::Subsequent {
+        e.timers(&time, fudge);
+    } else {
+        e.variables(&KEY_NAME_WIRE, aw, &time, fudge, error, &other);
+    }
+    let size_ok = ref_size_ok(out, L);
+    let mm = model_mac(&key, &e.s, e.n, out);
+    let mut mac_ok = true;
+    let mut i = 0;
+    while i < L && i < MAC_MAX {
+        if mac[i] != mm[i] {
+            mac_ok = false;
+        }
+        i += 1;
+    }
+    let time_ok = ref_time_ok(&time, fudge, &now);
+    assert!(
+        res.is_ok() == (size_ok && mac_ok && time_ok),
+        "[C11] verification succeeds exactly when the MAC size is allowed, the MAC is a prefix of the RFC 8945 MAC and the time is inside the fudge window"
+    );
+    // RFC 8945 5.2: MAC (with its size rule) is checked before the time
+    if !size_ok {
+        assert!(res == Err(VerificationError::FormErr), "[C11] MAC size outside RFC 8945 5.2.2.1 must give FORMERR");
+        unsafe {
+            assert!(REC_MADE == 0, "[C11] no MAC is computed for a MAC of unacceptable size");
+        }
+    } else {
+        if !mac_ok {
+            assert!(res == Err(VerificationError::BadSig), "[C11] MAC mismatch must give BADSIG (before any time check)");
+        } else if !time_ok {
+            assert!(res == Err(VerificationError::BadTime), "[C11] time outside the fudge window must give BADTIME");
+        }
+        unsafe {
+            assert!(REC_MADE == 1, "[C11] exactly one MAC computation per verification");
+        }
+        same_stream(&e);
+        message_covered(&msg, off, oid);
+    }
+    if ref_size_ok(out, L) {
+        kani::cover!(res.is_ok() && u48(&now) < u48(&time), "verification succeeds with now before time signed");
+        kani::cover!(res == Err(VerificationError::BadSig), "BADSIG");
+        kani::cover!(res == Err(VerificationError::BadTime), "BADTIME");
+    } else {
+        kani::cover!(res == Err(VerificationError::FormErr), "FORMERR for the MAC size");
+    }
+    core::mem::forget(tsig);
+}
+
+macro_rules! verify_harness {
+    ($name:ident, $mode:expr, $alg:expr, $up:literal, $m:literal, $l:literal, $r:literal, $o:literal, $n:literal) => {
+        #[kani::proof]
+        #[kani::unwind(34)]
+        #[kani::stub(Algorithm::make_authenticator, recording_authenticator)]
+        #[kani::stub(Algorithm::name, alg_name_static)]
+        fn $name() {
+            verify_case::<$m, $l, $r, $o, $n>($mode, $alg, $up);
+        }
+    };
+}
+
+// RDATA length N = algorithm name (13 for hmac-sha256., 11 for hmac-sha1.) + 16 + L + O
+
+// @harness name=c11_verify_request_sha256_l32 props=C11 tier=quick mem=6 t=900 stubs="S5,S5a" kani="--no-assertion-reach-checks"
+//   fn="ReadTsigRr::try_from,ReadTsigRr::verify_request,ReadTsigRr::verification_core,check_mac_size,check_time,add_modified_message,add_tsig_variables,ReadTsigRr::time_signed,ReadTsigRr::fudge,ReadTsigRr::mac,ReadTsigRr::original_id,ReadTsigRr::error,ReadTsigRr::other"
+//   bound="message 12+5 symbolic octets (ARCOUNT >= 1); TSIG RR owner 'k.', algorithm hmac-sha256., full 32-octet symbolic MAC, symbolic time/fudge/original ID/error, no other data; symbolic now (48 bits), 2-octet symbolic key; unwind 34"
+//   sym="msg:[u8;17], mac:[u8;32], key:[u8;2], time, now:[u8;6], fudge, original_id, error:u16"
+verify_harness!(c11_verify_request_sha256_l32, Mode::Request, Algorithm::HmacSha256, false, 17, 32, 0, 0, 61);
+
+// @harness name=c11_verify_request_sha256_l16_upcase props=C11 tier=quick mem=6 t=900 stubs="S5,S5a" kani="--no-assertion-reach-checks"
+//   fn="ReadTsigRr::try_from,ReadTsigRr::verify_request,ReadTsigRr::verification_core,check_mac_size,Name::make_ascii_lowercase"
+//   bound="as above with a MAC truncated to 16 octets (the minimum for hmac-sha256); the algorithm name inside the RDATA is 'HMAC-SHA256.' in upper case (the digest must use the lower-case form held by the ReadTsigRr); unwind 34"
+//   sym="msg:[u8;17], mac:[u8;16], key, time, now, fudge, original_id, error"
+verify_harness!(c11_verify_request_sha256_l16_upcase, Mode::Request, Algorithm::HmacSha256, true, 17, 16, 0, 0, 45);
+
+// @harness name=c11_verify_request_sha256_l15 props=C11 tier=quick mem=4 t=600 stubs="S5,S5a" kani="--no-assertion-reach-checks"
+//   fn="ReadTsigRr::verify_request,check_mac_size" bound="MAC of 15 octets with hmac-sha256 (one below the minimum): FORMERR for every content; unwind 34"
+//   sym="msg:[u8;17], mac:[u8;15], key, time, now, fudge, original_id, error"
+verify_harness!(c11_verify_request_sha256_l15, Mode::Request, Algorithm::HmacSha256, false, 17, 15, 0, 0, 44);
+
+// @harness name=c11_verify_request_sha256_l33 props=C11 tier=quick mem=4 t=600 stubs="S5,S5a" kani="--no-assertion-reach-checks"
+//   fn="ReadTsigRr::verify_request,check_mac_size" bound="MAC of 33 octets with hmac-sha256 (one above the output size): FORMERR; unwind 34"
+//   sym="msg:[u8;17], mac:[u8;33], key, time, now, fudge, original_id, error"
+verify_harness!(c11_verify_request_sha256_l33, Mode::Request, Algorithm::HmacSha256, false, 17, 33, 0, 0, 62);
+
+// @harness name=c11_verify_request_sha1_l10 props=C11 tier=quick mem=6 t=900 stubs="S5,S5a" kani="--no-assertion-reach-checks"
+//   fn="ReadTsigRr::verify_request,check_mac_size" bound="message 12+0; hmac-sha1 with a MAC truncated to 10 octets (the minimum); unwind 34"
+//   sym="msg:[u8;12], mac:[u8;10], key, time, now, fudge, original_id, error"
+verify_harness!(c11_verify_request_sha1_l10, Mode::Request, Algorithm::HmacSha1, false, 12, 10, 0, 0, 37);
+
+// @harness name=c11_verify_request_sha1_l9 props=C11 tier=thorough mem=4 t=600 stubs="S5,S5a" kani="--no-assertion-reach-checks"
+//   fn="ReadTsigRr::verify_request,check_mac_size" bound="hmac-sha1 with a 9-octet MAC: FORMERR; unwind 34"
+//   sym="msg:[u8;12], mac:[u8;9], key, time, now, fudge, original_id, error"
+verify_harness!(c11_verify_request_sha1_l9, Mode::Request, Algorithm::HmacSha1, false, 12, 9, 0, 0, 36);
+
+// @harness name=c11_verify_request_sha1_l21 props=C11 tier=thorough mem=4 t=600 stubs="S5,S5a" kani="--no-assertion-reach-checks"
+//   fn="ReadTsigRr::verify_request,check_mac_size" bound="hmac-sha1 with a 21-octet MAC: FORMERR; unwind 34"
+//   sym="msg:[u8;12], mac:[u8;21], key, time, now, fudge, original_id, error"
+verify_harness!(c11_verify_request_sha1_l21, Mode::Request, Algorithm::HmacSha1, false, 12, 21, 0, 0, 48);
+
+// @harness name=c11_verify_request_sha256_l0 props=C11 tier=thorough mem=4 t=600 stubs="S5,S5a" kani="--no-assertion-reach-checks"
+//   fn="ReadTsigRr::verify_request,check_mac_size" bound="empty MAC: FORMERR; unwind 34"
+//   sym="msg:[u8;17], key, time, now, fudge, original_id, error"
+verify_harness!(c11_verify_request_sha256_l0, Mode::Request, Algorithm::HmacSha256, false, 17, 0, 0, 0, 29);
+
+// @harness name=c11_verify_response_sha1_l20_r20_badtime props=C11 tier=quick mem=6 t=900 stubs="S5,S5a" kani="--no-assertion-reach-checks"
+//   fn="ReadTsigRr::verify_response,ReadTsigRr::verification_core,add_modified_message,add_tsig_variables,ReadTsigRr::other"
+//   bound="message 12+5; hmac-sha1 full 20-octet MAC; request MAC 20 symbolic octets; 6 symbolic other-data octets (a BADTIME response; the error field itself is symbolic); unwind 34"
+//   sym="msg:[u8;17], mac:[u8;20], request_mac:[u8;20], other:[u8;6], key, time, now, fudge, original_id, error"
+verify_harness!(c11_verify_response_sha1_l20_r20_badtime, Mode::Response, Algorithm::HmacSha1, false, 17, 20, 20, 6, 53);
+
+// @harness name=c11_verify_response_sha256_l32_r32 props=C11 tier=quick mem=6 t=900 stubs="S5,S5a" kani="--no-assertion-reach-checks"
+//   fn="ReadTsigRr::verify_response,ReadTsigRr::verification_core" bound="message 12+5; hmac-sha256 full MAC; request MAC 32 symbolic octets; no other data; unwind 34"
+//   sym="msg:[u8;17], mac:[u8;32], request_mac:[u8;32], key, time, now, fudge, original_id, error"
+verify_harness!(c11_verify_response_sha256_l32_r32, Mode::Response, Algorithm::HmacSha256, false, 17, 32, 32, 0, 61);
+
+// @harness name=c11_verify_subsequent_sha256_l32_r32 props=C11 tier=quick mem=6 t=900 stubs="S5,S5a" kani="--no-assertion-reach-checks"
+//   fn="ReadTsigRr::verify_subsequent,ReadTsigRr::verification_core,add_tsig_timers" bound="message 12+5; hmac-sha256 full MAC; prior MAC 32 symbolic octets; digest = prior MAC, message, timers; unwind 34"
+//   sym="msg:[u8;17], mac:[u8;32], prior_mac:[u8;32], key, time, now, fudge, original_id, error"
+verify_harness!(c11_verify_subsequent_sha256_l32_r32, Mode::Subsequent, Algorithm::HmacSha256, false, 17, 32, 32, 0, 61);
+
+// @harness name=c11_verify_subsequent_sha1_l10_r20 props=C11 tier=thorough mem=6 t=900 stubs="S5,S5a" kani="--no-assertion-reach-checks"
+//   fn="ReadTsigRr::verify_subsequent,ReadTsigRr::verification_core,add_tsig_timers" bound="message 12+9; hmac-sha1 MAC truncated to 10; prior MAC 20 symbolic octets; unwind 34"
+//   sym="msg:[u8;21], mac:[u8;10], prior_mac:[u8;20], key, time, now, fudge, original_id, error"
+verify_harness!(c11_verify_subsequent_sha1_l10_r20, Mode::Subsequent, Algorithm::HmacSha1, false, 21, 10, 20, 0, 37);
+
+// --------------------------------------------------------------------------
+// ReadTsigRr::try_from and the name views
+// --------------------------------------------------------------------------
+
+// @harness props=C11,C10 tier=quick mem=6 t=900 kani="--no-assertion-reach-checks"
+//   fn="ReadTsigRr::try_from,ReadTsigRr::key_name,ReadTsigRr::algorithm,ReadTsigRr::time_signed,ReadTsigRr::fudge,ReadTsigRr::mac,ReadTsigRr::original_id,ReadTsigRr::error,ReadTsigRr::other"
+//   bound="ReadRr with owner 'K.' (upper case), symbolic type, class and TTL, RDATA = 'HMAC-SHA1.' (upper case) + symbolic time/fudge + 3 symbolic MAC octets + symbolic original ID/error + 2 symbolic other-data octets; unwind 16"
+//   sym="rr_type:u16, class:u16, ttl:u32, time:[u8;6], fudge:u16, mac:[u8;3], original_id:u16, error:u16, other:[u8;2]"
 #[kani::proof]
-#[kani::unwind(34)]
-#[kani::stub(Algorithm::make_authenticator, recording_authenticator)]
-fn c11_sign_request_sha256_b5() {
-    let msg: [u8; 17] = kani::any();
-    sign_case(Mode::Request, Algorithm::HmacSha256, &msg, &[], 0);
+#[kani::unwind(16)]
+fn c11_try_from_read_rr() {
+    let rr_type: u16 = kani::any();
+    let class: u16 = kani::any();
+    let ttl_raw: u32 = kani::any();
+    let time: [u8; 6] = kani::any();
+    let fudge: u16 = kani::any();
+    let mac: [u8; 3] = kani::any();
+    let oid: u16 = kani::any();
+    let error: u16 = kani::any();
+    let other: [u8; 2] = kani::any();
+    let rd: [u8; 32] = rdata_of::<32>(&SHA1_WIRE, true, &time, fudge, &mac, oid, error, &other);
+    let ttl = Ttl::from(ttl_raw);
+    let rr = ReadRr {
+        owner: Name::try_from_uncompressed_all(&[1, b'K', 0]).unwrap(),
+        rr_type: Type::from(rr_type),
+        class: crate::class::Class::from(class),
+        ttl,
+        rdata: Cow::Borrowed((&rd[..]).try_into().unwrap()),
+    };
+    match ReadTsigRr::try_from(rr) {
+        Ok(t) => {
+            assert!(rr_type == 250, "[C11] only type TSIG converts");
+            assert!(class == 255 && u32::from(ttl) == 0, "[C10] a TSIG RR must have class ANY and TTL 0");
+            let kw = t.key_name().wire_repr();
+            assert!(kw.len() == 3 && kw[0] == 1 && kw[1] == b'k' && kw[2] == 0, "[C11] key name is the owner in lower case");
+            let aw = t.algorithm().wire_repr();
+            assert!(aw.len() == 11, "[C11] algorithm name is read from the RDATA");
+            let mut i = 0;
+            while i < 11 {
+                assert!(aw[i] == SHA1_WIRE[i], "[C11] algorithm name is the RDATA name in lower case");
+                i += 1;
+            }
+            assert!(t.mac_size == 3, "[C11] MAC size field");
+            let ts = t.time_signed();
+            let mut i = 0;
+            while i < 6 {
+                assert!(ts.as_array()[i] == time[i], "[C11] ReadTsigRr::time_signed");
+                i += 1;
+            }
+            assert!(t.fudge() == fudge, "[C11] ReadTsigRr::fudge");
+            let m = t.mac();
+            assert!(m.len() == 3 && m[0] == mac[0] && m[1] == mac[1] && m[2] == mac[2], "[C11] ReadTsigRr::mac");
+            assert!(t.original_id() == oid, "[C11] ReadTsigRr::original_id");
+            assert!(u16::from(t.error()) == error, "[C11] ReadTsigRr::error");
+            let o = t.other();
+            assert!(o.len() == 2 && o[0] == other[0] && o[1] == other[1], "[C11] ReadTsigRr::other");
+            kani::cover!(true, "TSIG RR accepted");
+        }
+        Err(FromReadRrError::NotTsig) => {
+            assert!(rr_type != 250, "[C11] a TSIG RR is reported as not TSIG");
+        }
+        Err(FromReadRrError::FormErr) => {
+            assert!(rr_type == 250 && (class != 255 || u32::from(ttl) != 0), "[C10] FORMERR only for class != ANY or TTL != 0");
+            kani::cover!(class == 255, "FORMERR for the TTL alone");
+            kani::cover!(u32::from(ttl) == 0, "FORMERR for the class alone");
+        }
+    }
+}
+
+fn view_matches(view: &Name, wire: &[u8]) {
+    let real = Name::try_from_uncompressed_all(wire).unwrap();
+    assert!(view.len() == real.len(), "[C11] name view: label count equals the real constructor's");
+    let vw = view.wire_repr();
+    let rw = real.wire_repr();
+    assert!(vw.len() == rw.len() && vw.len() == wire.len(), "[C11] name view: wire length");
+    let mut i = 0;
+    while i < wire.len() {
+        assert!(vw[i] == rw[i] && vw[i] == wire[i], "[C11] name view: wire octets");
+        i += 1;
+    }
+    let mut k = 0;
+    while k < 2 {
+        assert!(view.wire_repr_from(k).len() == real.wire_repr_from(k).len(), "[C11] name view: label offsets");
+        k += 1;
+    }
+}
+
+// @harness props=C11,C10 tier=quick mem=4 t=600 kani="--no-assertion-reach-checks"
+//   fn="Algorithm::name,Name::try_from_uncompressed_all,Name::wire_repr,Name::len,Name::wire_repr_from"
+//   bound="the three static name representations used as inputs ('k.', 'hmac-sha1.', 'hmac-sha256.') against Name::try_from_uncompressed_all, and Algorithm::name() (the real lazy_static names) against the RFC 8945 algorithm names; concrete; unwind 16"
+//   sym="none"
+#[kani::proof]
+#[kani::unwind(16)]
+fn c11_name_views_wellformed() {
+    let k = key_name();
+    view_matches(&k, &KEY_NAME_WIRE);
+    let a1 = alg_name_view(Algorithm::HmacSha1);
+    view_matches(&a1, &SHA1_WIRE);
+    let a2 = alg_name_view(Algorithm::HmacSha256);
+    view_matches(&a2, &SHA256_WIRE);
+    // the names quandary itself uses for the algorithms
+    let n1 = Algorithm::HmacSha1.name().wire_repr();
+    assert!(n1.len() == 11, "[C11] Algorithm::name(HmacSha1) is hmac-sha1.");
+    let mut i = 0;
+    while i < 11 {
+        assert!(n1[i] == SHA1_WIRE[i], "[C11] Algorithm::name(HmacSha1) is hmac-sha1.");
+        i += 1;
+    }
+    let n2 = Algorithm::HmacSha256.name().wire_repr();
+    assert!(n2.len() == 13, "[C11] Algorithm::name(HmacSha256) is hmac-sha256.");
+    let mut i = 0;
+    while i < 13 {
+        assert!(n2[i] == SHA256_WIRE[i], "[C11] Algorithm::name(HmacSha256) is hmac-sha256.");
+        i += 1;
+    }
+    kani::cover!(true, "views checked");
+    core::mem::forget(k);
+    core::mem::forget(a1);
+    core::mem::forget(a2);
+}
+
+// --------------------------------------------------------------------------
+// check_time / check_mac_size over their whole domains (also C10)
+// --------------------------------------------------------------------------
+
+// @harness props=C11,C10 tier=quick mem=2 t=300
+//   fn="check_time,TimeSigned::to_unix_time" bound="every time signed (2^48), every fudge (2^16), every now (2^48); no loops"
+//   sym="time:[u8;6], fudge:u16, now:[u8;6]"
+#[kani::proof]
+#[kani::unwind(10)]
+fn c11_check_time_all() {
+    let time: [u8; 6] = kani::any();
+    let now: [u8; 6] = kani::any();
+    let fudge: u16 = kani::any();
+    let r = check_time(TimeSigned::from(time), fudge, TimeSigned::from(now));
+    let ok = ref_time_ok(&time, fudge, &now);
+    assert!(r.is_ok() == ok, "[C11] check_time accepts exactly |now - time signed| <= fudge");
+    assert!(r.is_ok() == ok, "[C10] check_time accepts exactly |now - time signed| <= fudge");
+    assert!(r.is_ok() || r == Err(VerificationError::BadTime), "[C11] check_time fails only with BADTIME");
+    kani::cover!(r.is_ok() && u48(&time) < 300 && u48(&now) == 0 && fudge == 300, "window clipped at the epoch");
+    kani::cover!(r.is_ok() && u48(&time) == 0xffff_ffff_ffff && fudge > 0, "window at the top of the 48-bit range");
+    kani::cover!(r.is_err() && u48(&now) == u48(&time) + fudge as u64 + 1, "one second too late");
+    kani::cover!(r.is_err() && u48(&now) + fudge as u64 + 1 == u48(&time), "one second too early");
+}
+
+// @harness props=C11,C10 tier=quick mem=2 t=300
+//   fn="check_mac_size,Algorithm::output_size" bound="both algorithms, every MAC size (2^16); no loops" sym="mac_size:u16"
+#[kani::proof]
+#[kani::unwind(10)]
+fn c11_check_mac_size_all() {
+    let size: u16 = kani::any();
+    let r1 = check_mac_size(Algorithm::HmacSha1, size);
+    let r256 = check_mac_size(Algorithm::HmacSha256, size);
+    assert!(Algorithm::HmacSha1.output_size() == 20 && Algorithm::HmacSha256.output_size() == 32, "[C11] output sizes of HMAC-SHA1 / HMAC-SHA256");
+    assert!(r1.is_ok() == ref_size_ok(20, size as usize), "[C11] hmac-sha1: MAC sizes 10..=20 and no others are accepted");
+    assert!(r256.is_ok() == ref_size_ok(32, size as usize), "[C11] hmac-sha256: MAC sizes 16..=32 and no others are accepted");
+    assert!(r1.is_ok() == (size >= 10 && size <= 20), "[C10] hmac-sha1: MAC sizes 10..=20 and no others are accepted");
+    assert!(r256.is_ok() == (size >= 16 && size <= 32), "[C10] hmac-sha256: MAC sizes 16..=32 and no others are accepted");
+    assert!(r1.is_ok() || r1 == Err(VerificationError::FormErr), "[C11] check_mac_size fails only with FORMERR");
+    kani::cover!(r1.is_ok() && r256.is_err(), "size accepted for sha1 only");
+    kani::cover!(r256.is_ok() && r1.is_err(), "size accepted for sha256 only");
 }
